@@ -111,6 +111,9 @@ type Sched struct {
 	races    [64]RaceEvent
 	nrace    int
 
+	held             [maxTasks]int
+	SkippedUnderLock int
+
 	pctPts [8]int
 	cand   [maxTasks]int
 
@@ -158,6 +161,20 @@ func (s *Sched) IsAborted() bool { return s.Aborted }
 //
 //go:norace
 func (s *Sched) Abort() { s.Aborted = true }
+
+// Held records that the running task acquired (+1) or is about to release
+// (-1) a lock of the code under test.
+//
+//go:norace
+func (s *Sched) Held(delta int) {
+	if !s.active {
+		return
+	}
+	s.held[s.cur] += delta
+	if s.held[s.cur] < 0 {
+		s.held[s.cur] = 0
+	}
+}
 
 // CurTask returns the id of the running task.
 //
@@ -351,6 +368,12 @@ func (s *Sched) Yield(kind int, label string, inOp bool) {
 		// A goroutine the simulator does not control reached a seam: the
 		// schedule is no longer ours to decide.
 		s.Foreign = true
+		return
+	}
+	if s.held[t.ID] > 0 {
+		// never park a task that holds a lock of the code under test: another
+		// task could block on the real mutex and nobody would run
+		s.SkippedUnderLock++
 		return
 	}
 	s.pollRace(t, label)
